@@ -559,3 +559,42 @@ def g_c16(d: Draw) -> dict:
 reg(Prop("C16", g_c16, {"value": "C16.a", "build_table": "C16.c", "raise": "C16.d", "wrongexc": "C16.d", "noraise": "C16.d",
                         "args": "C16.a", "count_extra": "C16.a", "count_missing": "C16.a"},
          nontrivial="concurrent", n_sched=3, quick=1200, thorough=30000))
+
+
+# ----------------------------------------------------------------------------- C17 async flavour
+P_C17A = gen.profile(p_setup=0.08, p_same_inner_twice=0.0)
+P_C17B = gen.profile(**{**gen.SCHED, "resources": [("async_thread", 6), ("thread", 2), ("main_thread", 1)], "n_stmts": (2, 7),
+                        "n_params": (1, 2), "p_default": 0.2, "p_flag": 0.1, "p_setup": 0.0})
+
+
+def g_c17(d: Draw) -> dict:
+    if d.bool(0.45):
+        # (a) both flavours of one describing function
+        spec = gen.gen_program(d, P_C17A)
+        dg = spec["dags"]["main"]
+        args = draw_args(d, dg)
+        ops = [dict(op="call", inst="E:main", args=args), dict(op="call", inst="A:main", args=args),
+               dict(op="snapshot", inst="E:main", same_as="flavours"), dict(op="snapshot", inst="A:main", same_as="flavours")]
+        if d.bool(0.3):
+            args2 = draw_args(d, dg)
+            ops[2:2] = [dict(op="call", inst="A:main", args=args2), dict(op="call", inst="E:main", args=args2)]
+        return dict(program=spec, prebuild=[dict(dags=spec["order"]), dict(env="A", dags=spec["order"], flip_async=True)], clients=[ops])
+    # (b, c) concurrent awaits of one AsyncDAG in one loop, ticker sibling, tick-dependent async-thread nodes, cancellation
+    spec = gen.gen_program(d, P_C17B)
+    dg = spec["dags"]["main"]
+    inst = "E:main" if dg["is_async"] else "A:main"
+    calls = [dict(inst=inst, args=draw_args(d, dg)) for _ in range(d.int(1, 4))]
+    op: Dict[str, Any] = dict(op="gather", calls=calls, ticker=d.bool(0.8))
+    scn = dict(program=spec, prebuild=[dict(dags=spec["order"]), dict(env="A", dags=spec["order"], flip_async=True)], clients=[[op]])
+    if op["ticker"]:
+        scn["fair_only"] = True
+    if op["ticker"] and d.bool(0.6):
+        scn["tick_nodes"] = "all"
+    if d.bool(0.2):
+        op["cancel"] = dict(idx=d.int(0, len(calls) - 1), at=d.int(0, 6))
+    return scn
+
+
+reg(Prop("C17", g_c17, {"value": "C17.a", "count_missing": "C17.a", "count_extra": "C17.a", "args": "C17.b", "state_leak": "C17.a",
+                        "raise": "C17.a", "loop_blocked": "C17.c", "deadlock": "C17.c", "livelock": "C17.c"},
+         nontrivial="concurrent", n_sched=3, quick=1200, thorough=30000, watchdog=True))
